@@ -1,5 +1,7 @@
 // probe target of the C15 check: a separate program image started by cmd/sandbox.
-//   target <marker file> <probe file>
+//
+//	target <marker file> <probe file>
+//
 // appends a line to the marker file (proof that it ran), reports the seccomp state of the parent's threads and
 // its own no_new_privs bit, then issues the probe system calls RAW and prints S <idx> before and
 // D <idx> <errno> <r1> after each (unbuffered: a probe that kills the process leaves its S line).
